@@ -195,7 +195,8 @@ def run_suite(name, tier, seed, fp):
     # the run is resumed with the next catalog type so that the other types are still covered
     restarts = 0
     hangs = 1 if hung else 0
-    while rc != 0 and restarts < 12 and hangs <= 3 and name != "portable":
+    next_from = 0
+    while rc != 0 and restarts < 80 and hangs <= 3 and name != "portable":
         with open(trace, "rb") as f:
             data = f.read()
         last = data.rstrip(b"\n").split(b"\n")[-1].decode("utf-8", "replace")
@@ -206,7 +207,9 @@ def run_suite(name, tier, seed, fp):
             with open(trace, "ab") as f:
                 f.write(b"\n")
         restarts += 1
-        rc, stderr_tail2, hung2 = run_watched([harness_bin()] + SUITE_ARGS[name] + ["--seed", str(seed), "--tier", tier, "--from", str(int(fields[1]) + 1)], trace, "ab", idle)
+        # a crash before the first case line of a type (while its initial state is being built) leaves no line of that type: step over it
+        next_from = max(int(fields[1]) + 1, next_from + 1)
+        rc, stderr_tail2, hung2 = run_watched([harness_bin()] + SUITE_ARGS[name] + ["--seed", str(seed), "--tier", tier, "--from", str(next_from)], trace, "ab", idle)
         stderr_tail = stderr_tail or stderr_tail2
         hung = hung or hung2
         hangs += 1 if hung2 else 0
@@ -848,10 +851,14 @@ def refusable(op):
 def proj_C13(lhs, o, t):
     if lhs[0] != "O" or not refusable(op_of(lhs)): return ()
     return (o.get("res"), o.get("same")) if REFUSED.match(o.get("res") or "") else (o.get("res"),)
-def oracle_C13(lhs, o, t):
+def oracle_C13(lhs, o, t, om=None):
     if lhs[0] != "O" or not refusable(op_of(lhs)): return None
     if REFUSED.match(o.get("res") or "") and o.get("same") != "1":
         return f"operation refused with {o['res']} but the observable state changed: {o.get('p')}"
+    # an operation the reference refuses (theorems `C13_*`: it returns an error and changes nothing) that the implementation answers with
+    # a panic — and the value is not what it was
+    if om is not None and o.get("cls") == "PANIC" and not o.get("hang") and REFUSED.match(om.get("res") or "") and o.get("same") != "1":
+        return f"the reference refuses this operation ({om.get('res')}: nothing may change); the implementation panicked and the observable state changed: {o.get('p')}"
     return None
 def proj_C14(lhs, o, t):
     return (o.get("after"), o.get("outside", False))
